@@ -69,6 +69,13 @@ impl Scenario for KeepAlive {
     fn key_extra(&self, w: &World) -> u64 {
         w.now
     }
+    fn key_hist(&self, hist: &[Act]) -> u64 {
+        // the reference keep-alive model's state is part of the state key: a
+        // client PING and a client PONG may leave the server in the same state
+        // and must still not be merged (the oracle treats them differently)
+        let (now, outstanding, quit) = self.model(hist);
+        1 + (crate::canon::hash128(&(now, outstanding, quit)) as u64 >> 1)
+    }
     fn actions(&self, v: &View) -> Vec<Act> {
         let mut acts = vec![Act::Tick];
         if v.life[0] == Life::Live {
